@@ -13,7 +13,7 @@ func init() {
 		"(R1) the gRPC-code→HTTP-status decision table of toHTTPStatus equals the table in the property for every code, non-status errors give 500, the ErrorMapper is consulted first; "+
 		"(R2) every return of every (status, error) function of the front end (handlers and the functions that fetch a backend reply for them) is (200, nil) or (non-200, non-nil error) on all paths, and ServeHTTP rejects wrong methods / unparsable forms before calling the handler and converts (non-200, nil) into 500; "+
 		"(R3) for each endpoint and each cause named in the property (backend error, garbled root, tree too small, surplus or mis-indexed leaves, absent parts, bad proof hashes, undecodable leaf, parse failures) the control-flow edge taken on that cause can only reach returns of the prescribed status class with a non-nil error, and parse failures cannot reach a backend call; "+
-		"(R4) optional parts of backend replies are nil-guarded or read through nil-safe getters before use; (R5) no SCT is recorded on any fault edge of add-chain; (R6) SendHTTPError withholds the error text exactly when masking is on and the status is 500; checkAuditPath rejects wrong-sized hashes; (R7) a function without a status result that obtains an error from a backend RPC, or from a function on the way to one, hands on that very error value on every return that may execute once it is non-nil, so the gRPC status reaches toHTTPStatus. "+
+		"(R4) optional parts of backend replies are nil-guarded before every use that needs them present, whether the part is read by loading the field or through its nil-safe accessor (an accessor is recognised by what its body does, not by its name), and the absence of a part named in R3 is a cause of its own: when the part is read but no branch tests it for absence, the success return is reachable without it; (R5) no SCT is recorded on any fault edge of add-chain; (R6) SendHTTPError withholds the error text exactly when masking is on and the status is 500; checkAuditPath rejects wrong-sized hashes; (R7) a function without a status result that obtains an error from a backend RPC, or from a function on the way to one, hands on that very error value on every return that may execute once it is non-nil, so the gRPC status reaches toHTTPStatus. "+
 		"NOT covered: panics from causes other than absent optional message parts, behaviour of net/http and gRPC, the dynamic values of statuses produced by an injected ErrorMapper.",
 		runC08)
 }
@@ -274,8 +274,14 @@ func runC08(r *Run) {
 	// used (QueueLeafResponse.QueuedLeaf, QueuedLogLeaf.Leaf, GetEntryAndProofResponse.Leaf / .Proof,
 	// GetConsistencyProofResponse.Proof), which does not change when a use moves between a helper and its caller
 	nParts := c08DistinctOptionalParts(r, func(fn *ssa.Function) bool { return inCtfePkg(fn) }, "github.com/google/trillian*")
-	r.Check("floor:optional backend-reply parts checked", nOpt >= nParts, "-", fmt.Sprintf("%d (function, part) uses checked for %d distinct parts", nOpt, nParts))
-	r.Floor("optional backend-reply parts used in ctfe", nParts, 5)
+	r.Check("floor:optional backend-reply parts checked", nOpt >= nParts, "-", fmt.Sprintf("%d (function, part) uses checked for %d distinct parts used in a way that needs them present", nOpt, nParts))
+	// what the floor protects is that the rule sees the optional parts of backend messages the front end reads; a part
+	// is read by loading the field or through its nil-safe accessor (rsp.Proof / rsp.GetProof()), and reading it in
+	// the other form does not change what is read: the five parts above and the SignedLogRoot of the five replies
+	// that carry one
+	nRead := c08OptionalPartsRead(r, func(fn *ssa.Function) bool { return inCtfePkg(fn) })
+	r.Pass("optional backend-reply parts read in ctfe", "-", strings.Join(nRead, ", "))
+	r.Floor("optional backend-reply parts read in ctfe", len(nRead), c08PartsReadFloor)
 
 	// ---- R7: backend errors reach toHTTPStatus with their gRPC status intact
 	r.Rule("C08.R7")
@@ -318,6 +324,12 @@ func runC08(r *Run) {
 
 	r.NilArgsRule("C08.R8", "trillian/ctfe", "trillian/util")
 }
+
+// c08PartsReadFloor: distinct optional parts of backend replies read in package ctfe (confirmed by reading:
+// QueueLeafResponse.QueuedLeaf, QueuedLogLeaf.Leaf, GetEntryAndProofResponse.Leaf / .Proof,
+// GetConsistencyProofResponse.Proof, and the SignedLogRoot of the replies to GetLatestSignedLogRoot,
+// GetConsistencyProof, GetInclusionProofByHash, GetLeavesByRange and GetEntryAndProof).
+const c08PartsReadFloor = 10
 
 type edgeRow struct {
 	fn     string
@@ -384,10 +396,12 @@ func c08Edges(r *Run) {
 	rows = append(rows, c08FetchRows(r, "trillian/ctfe.getEntryAndProof", "GetEntryAndProof")...)
 	rpcCount := 0
 	type prepared struct {
-		row edgeRow
-		fn  *ssa.Function
-		sp  EdgeSpec
-		ev  *c08EdgeResult
+		row  edgeRow
+		fn   *ssa.Function
+		sp   EdgeSpec
+		ev   *c08EdgeResult
+		part string   // the cause is the absence of this value (origin term, glob)
+		keys []string // … and these are the atoms of fn that test it for absence
 	}
 	var todo []*prepared
 	for _, row := range rows {
@@ -410,7 +424,19 @@ func c08Edges(r *Run) {
 		if row.status == "400" && (strings.Contains(row.name, "params") || strings.Contains(row.name, "hash-") || strings.Contains(row.name, "tree-size-") || row.name == "body-unparsable" || row.name == "chain-rejected" || row.name == "leaf-build-failed") {
 			sp.Unreach = append(sp.Unreach, asInstrs(c08BackendCalls(fn))...)
 		}
-		todo = append(todo, &prepared{row, fn, sp, c08EdgeEval(r, fn, sp)})
+		p := &prepared{row: row, fn: fn, sp: sp}
+		if term, ok := strings.CutPrefix(row.atom.Pat, "nil?"); ok && row.bad == "nil" {
+			// the cause is the absence of a value (the reply, an optional part of it): the tests of this cause are
+			// the nil tests of that value however it is read — by loading the field or through a nil-safe accessor
+			p.part = term
+			p.keys = c08NilTests(r, fn, term)
+		}
+		if len(p.keys) > 0 {
+			p.ev = c08EdgeEvalBound(r, fn, sp, p.keys, nil)
+		} else {
+			p.ev = c08EdgeEval(r, fn, sp)
+		}
+		todo = append(todo, p)
 	}
 	for i, p := range todo {
 		// the causes of the same function, this one at index me
@@ -427,7 +453,14 @@ func c08Edges(r *Run) {
 		// FailEdge decides (and reports); only a cause that is tested where later causes can still intervene
 		// is decided among the causes of its function
 		if !c08EdgeAmongCauses(r, p.fn, short(p.row.fn), p.sp, me, same) {
-			r.FailEdge(p.fn, short(p.row.fn), p.sp)
+			switch {
+			case len(p.keys) > 0:
+				c08ReportEdge(r, p.fn, short(p.row.fn), p.sp, p.ev, p.keys)
+			case p.part != "" && c08PartUntested(r, p.fn, short(p.row.fn), p.sp, p.part, p.row.status):
+				// the part is read but never tested for absence: decided (and reported) there
+			default:
+				r.FailEdge(p.fn, short(p.row.fn), p.sp)
+			}
 		}
 	}
 	// floor: the backend RPCs issued by the front end
